@@ -29,11 +29,15 @@ type c36Case struct {
 	Service string  `json:"service"`
 	Server  string  `json:"server"`
 	Raw     string  `json:"raw"`
+	// OverSRPC (history mode): the lookup runs over a real SRPC client/server pair (generated stream wrappers and
+	// message encoding included) instead of the server method being called with a harness stream
+	OverSRPC bool `json:"over_srpc,omitempty"`
 }
 
 func genC36(t *rapid.T) c36Case {
 	c := c36Case{Mode: rapid.SampledFrom([]string{"history", "codec", "codec"}).Draw(t, "mode")}
 	if c.Mode == "history" {
+		c.OverSRPC = rapid.Bool().Draw(t, "oversrpc")
 		n := rapid.IntRange(1, 8).Draw(t, "n")
 		for i := 0; i < n; i++ {
 			c.Ops = append(c.Ops, c36Op{Op: "toggle", I: rapid.SampledFrom([]int{0, 0, 0, 1, 1, 2}).Draw(t, "i")})
@@ -169,9 +173,37 @@ func checkC36(c c36Case) (o vstat.Outcome) {
 	srv := bifrost_rpc_access.NewAccessRpcServiceServer(tb.Bus, false, nil)
 	strm := &lookupStream{ctx: ctx}
 	done := make(chan error, 1)
-	go func() {
-		done <- srv.LookupRpcService(bifrost_rpc_access.NewLookupRpcServiceRequest(c.Service, ""), strm)
-	}()
+	if c.OverSRPC {
+		o.Classes = append(o.Classes, "over-srpc")
+		mux := srpc.NewMux()
+		if err := bifrost_rpc_access.SRPCRegisterAccessRpcService(mux, srv); err != nil {
+			o.Discard = true
+			return
+		}
+		client := bifrost_rpc_access.NewSRPCAccessRpcServiceClient(srpc.NewClient(srpc.NewServerPipe(srpc.NewServer(mux))))
+		cs, err := client.LookupRpcService(ctx, bifrost_rpc_access.NewLookupRpcServiceRequest(c.Service, ""))
+		if err != nil {
+			o.V = vstat.Viol("lookup-call-failed", "LookupRpcService over SRPC: %v", err)
+			return
+		}
+		go func() {
+			for {
+				m, err := cs.Recv()
+				if err != nil {
+					if ctx.Err() != nil {
+						err = context.Canceled
+					}
+					done <- err
+					return
+				}
+				_ = strm.Send(m)
+			}
+		}()
+	} else {
+		go func() {
+			done <- srv.LookupRpcService(bifrost_rpc_access.NewLookupRpcServiceRequest(c.Service, ""), strm)
+		}()
+	}
 	live := map[int]func(){}
 	defer func() {
 		for _, rel := range live {
